@@ -9,7 +9,7 @@ Cmds == <<
   C("cpp_member", <<"@", "C">>), C("cpp_member", <<"dupm", "C", "int">>), C("cpp_member", <<"@", "C", "int", "args">>),
   Trig(C("cpp_member", <<"@", "C", "int", "str">>)),      \* its doccomment (if any) contains the kwargs trigger string: no effect on members
   C("cpp_constructor", <<"@", "C", "int">>),
-  C("function", <<"${@}", "_p_self">>), C("function", <<"${@}", "self", "_p_a", "b">>),
+  C("function", <<"${@}", "_p_self">>), C("function", <<"${@}", "self", "_p_a", "a">>),      \* after the strip pattern both parameters are called "a": paired by position all the same
   C("macro", <<"${@}", "self", "a">>),
   C("endfunction", <<>>), C("endmacro", <<>>),
   C("other", <<"hi">>),
